@@ -29,6 +29,7 @@ var noopPrefixes = []string{
 	"(*github.com/grailbio/base/limiter.Limiter).Release",
 	"os/signal.",
 	"encoding/gob.Register",
+	"github.com/grailbio/base/diagnostic/dump.", "(*github.com/grailbio/base/diagnostic/dump.",
 }
 
 func (i *interpreter) intercept(fr *frame, fn *ssa.Function, args []value) (value, bool) {
@@ -307,6 +308,10 @@ func init() {
 		"(*sync.RWMutex).RLock":   intRLock,
 		"(*sync.RWMutex).RUnlock": intRUnlock,
 		"(*sync.Once).Do":         intOnceDo,
+		"runtime/pprof.Do": func(fr *frame, a []value) value { // labels are dropped; the function runs with the caller's context
+			call(fr.i, fr, token.NoPos, a[2], []value{a[0]})
+			return nil
+		},
 		"(*sync.WaitGroup).Add":   intWGAdd,
 		"(*sync.WaitGroup).Done":  func(fr *frame, a []value) value { return intWGAdd(fr, []value{a[0], -1}) },
 		"(*sync.WaitGroup).Wait":  intWGWait,
